@@ -510,7 +510,15 @@ pub fn replay_main() {
         let (hit, ch, log) = run_one(choices.clone());
         runs += 1;
         if let Some(m) = hit {
-            let wanted = match needle { Some(n) if !n.is_empty() => m.contains(n.as_str()), _ => true };
+            // needle "Cxx" matches a clause tagged with that property; "Cxx+untagged" also accepts a failure without any
+            // tag (a panic of the crate itself: assert!, overflow, out-of-bounds)
+            let wanted = match needle {
+                Some(n) if !n.is_empty() => {
+                    let (tag, untagged_ok) = match n.strip_suffix("+untagged") { Some(t) => (t, true), None => (n.as_str(), false) };
+                    m.contains(tag) || (untagged_ok && !m.contains('['))
+                }
+                _ => true,
+            };
             if wanted {
                 let cs: Vec<String> = ch.iter().map(|c| c.0.to_string()).collect();
                 println!("{{\"status\":\"hit\",\"runs\":{},\"choices\":\"{}\",\"inputs\":\"{}\",\"message\":\"{}\"}}", runs, cs.join(","), esc(&log.join(" ")), esc(&m));
